@@ -37,6 +37,7 @@ type Options struct {
 	Board                 string
 	NewsYAML              string // initial ThreadedNews.yaml ("" = empty tree)
 	BanYAML               string // initial Banlist.yaml ("" = no file)
+	SparseAccountFiles    bool   // account files list only the privileges that are granted (hand-written files)
 	ServerName            string
 	PreserveResourceForks bool
 	IgnoreFiles           []string
@@ -161,12 +162,19 @@ type accountFile struct {
 
 // AccountYAML renders an account file in the named-flag format using the reference
 // privilege names.
-func AccountYAML(a AccountSpec) []byte {
+func AccountYAML(a AccountSpec) []byte { return accountYAML(a, false) }
+
+// accountYAML: with sparse set the file is one an operator wrote or trimmed by hand - privileges that are not granted
+// are simply not listed (DownloadFile always is: the server tells the named form from the older numeric one by it).
+func accountYAML(a AccountSpec, sparse bool) []byte {
 	af := accountFile{Login: a.Login, Name: a.Name, Password: HashPassword(a.Password), Access: map[string]bool{}, FileRoot: a.FileRoot}
 	if a.RawPassword != nil {
 		af.Password = *a.RawPassword
 	}
 	for i, n := range hlref.PrivilegeNames {
+		if sparse && !a.Access.Has(i) && n != "DownloadFile" {
+			continue
+		}
 		af.Access[n] = a.Access.Has(i)
 	}
 	b, err := yaml.Marshal(af)
@@ -192,7 +200,7 @@ func New(base string, opt Options) (*World, error) {
 		}
 	}
 	for _, a := range opt.Accounts {
-		if err := os.WriteFile(filepath.Join(w.UsersDir, a.Login+".yaml"), AccountYAML(a), 0o644); err != nil {
+		if err := os.WriteFile(filepath.Join(w.UsersDir, a.Login+".yaml"), accountYAML(a, opt.SparseAccountFiles), 0o644); err != nil {
 			return nil, err
 		}
 	}
